@@ -13,6 +13,8 @@ def jobs(ctx):
         f(method, 1, 3); f(method, 3, 1)
         for pre in itertools.product((True, False), repeat=2):
             f(method, 2, 2, pre)
+        # one slice of the 6-pixel maps in the quick tier too (two flagged pixels whose scans end on invalid pixels need more than 2x2)
+        f(method, 3, 2, (False, False, False, False)); f(method, 2, 3, (False, False, False, False))
         if not ctx.quick:
             f(method, 1, 4); f(method, 4, 1)
             for pre in itertools.product((True, False), repeat=4):
